@@ -13,6 +13,8 @@ for id in $ids; do
   e=$(python3 -c "import json;print(' '.join(json.load(open('props/$id.json')).get('extract',[])))")
   [ -n "$e" ] && { ./tools/extract/run.sh "$PWD" /repo $e || { echo "setup: extractor of $id failed"; rc=1; }; }
 done
+# translated functions (tools/go2lean): regenerated from /repo's Go source, like the facts
+./tools/go2lean/run.sh "$PWD" /repo || { echo "setup: go2lean failed"; rc=1; }
 targets="Logrange.AuditCmd"
 for id in $ids; do
   targets="$targets $(python3 -c "import json;print(' '.join(json.load(open('props/$id.json'))['lean_targets']))")"
